@@ -74,9 +74,57 @@ func lhsFieldA(f *ir.Func, e ast.Expr) *types.Var {
 			switch f.TypeOf(x).Underlying().(type) {
 			case *types.Map, *types.Slice, *types.Pointer:
 				if o := origin(f, x); o != ast.Expr(x) {
-					return lhsField(f, o)
+					if v := lhsField(f, o); v != nil {
+						return v
+					}
+					return lhsFieldAt(f, o, 3)
 				}
+				// a helper's result: one definition that matters, next to nil on the helper's failure path
+				return lhsFieldAt(f, x, 3)
 			}
+		}
+		return nil
+	}
+}
+
+// lhsFieldAt follows a map / slice / pointer local through its definitions other than nil (a declaration, the nil
+// a helper yields on failure) when there is exactly one, at most depth times.
+func lhsFieldAt(f *ir.Func, e ast.Expr, depth int) *types.Var {
+	if depth == 0 {
+		return nil
+	}
+	if v := lhsField(f, e); v != nil {
+		return v
+	}
+	for {
+		switch x := ast.Unparen(e).(type) {
+		case *ast.IndexExpr:
+			e = x.X
+			continue
+		case *ast.SliceExpr:
+			e = x.X
+			continue
+		case *ast.StarExpr:
+			e = x.X
+			continue
+		case *ast.Ident:
+			obj := f.ObjOf(x)
+			if v, ok := obj.(*types.Var); !ok || v.IsField() {
+				return nil
+			}
+			var rhs ast.Expr
+			n := 0
+			for _, d := range wholeDefs(f, obj) {
+				if d.RHS == nil || f.IsNil(d.RHS) {
+					continue
+				}
+				rhs = d.RHS
+				n++
+			}
+			if n != 1 {
+				return nil
+			}
+			return lhsFieldAt(f, rhs, depth-1)
 		}
 		return nil
 	}
